@@ -102,6 +102,8 @@ T = {
     "C15-H": ("C15", "ClusterGraph.add_edge registers both cliques before the sepset check", "a rejected edge between disjoint cliques with a clique not yet in the graph", ["C15"], False),
     "C16-G": ("C16", "compat to_numpy returns the array itself: the samplers' weight correction is written into the model's CPD", "a parentless node whose CPD column does not sum to exactly one and a direct sampling-engine call", ["C16", "C07"], False),
     "C16-H": ("C16", "DiscreteFactor.sum copies the addend only when it needs extra axes: axis alignment permutes the caller's factor", "factor addition where the addend covers the left operand's variables in another order with unequal cardinalities", ["C04"], False),
+    "C10-G": ("C10", "K2 local score drops the adjustment for parent configurations removed by reindex=False", "K2, a child with >= 3 states and an unobserved parent configuration", ["C10"], False),
+    "C10-H": ("C10", "state space of a categorical column taken from the dtype's categories", "no state_names, categorical dtype with a category occurring in no row", ["C10"], False),
     "C17-B": ("C17", "initialize_initial_state pairs parent cardinalities with reversed parent names", "a CPD given for one slice with >= 2 same-slice parents of different cardinalities", ["C17"], True),
 }
 
